@@ -346,13 +346,15 @@ impl StreamsState {
         }
         self.on_stream_frame(!stopped, id);
 
-        // Update connection-level flow control
-        Ok(if bytes_read != final_offset.into_inner() {
-            // bytes_read is always <= end, so this won't underflow.
+        // Update connection-level flow control. A stopped stream has already returned the credit
+        // for everything it received, read or not.
+        let credited = if stopped { end } else { bytes_read };
+        Ok(if credited != final_offset.into_inner() {
+            // bytes_read is always <= end <= final_offset, so this won't underflow.
             self.data_recvd = self
                 .data_recvd
                 .saturating_add(u64::from(final_offset) - end);
-            self.add_read_credits(u64::from(final_offset) - bytes_read)
+            self.add_read_credits(u64::from(final_offset) - credited)
         } else {
             ShouldTransmit(false)
         })
